@@ -100,7 +100,9 @@ func c05producible(k *ref.XKey) bool {
 func c05check(c *vf.Ctx, family, s string) (k *hdkeychain.ExtendedKey, rk *ref.XKey) {
 	rk, rerr := ref.ParseXKey(s)
 	valid := rerr == nil
-	in := func() string { return fmt.Sprintf("family=%s string=%s payload=%s", family, q(short(s)), c05payload(s)) }
+	in := func() string {
+		return fmt.Sprintf("family=%s string=%s payload=%s", family, q(short(s)), c05payload(s))
+	}
 	var err error
 	if !c.Call("NewKeyFromString", in, func() { k, err = hdkeychain.NewKeyFromString(s) }) {
 		return nil, rk
